@@ -32,24 +32,32 @@ package unifier
 
 //@ func (cb *CircuitBreaker) transitionToOpen
 //@   property C08
+//@   safety
+//@   requires cb != nil
 //@   helper
 //@   modifies cb.state, cb.successes, cb.halfOpenRequests
 //@   ensures cb.state == 1 && cb.successes == 0 && cb.halfOpenRequests == 0
 
 //@ func (cb *CircuitBreaker) transitionToHalfOpen
 //@   property C08
+//@   safety
+//@   requires cb != nil
 //@   helper
 //@   modifies cb.state, cb.failures, cb.successes, cb.halfOpenRequests
 //@   ensures cb.state == 2 && cb.failures == 0 && cb.successes == 0 && cb.halfOpenRequests == 0
 
 //@ func (cb *CircuitBreaker) transitionToClosed
 //@   property C08
+//@   safety
+//@   requires cb != nil
 //@   helper
 //@   modifies cb.state, cb.failures, cb.successes, cb.halfOpenRequests
 //@   ensures cb.state == 0 && cb.failures == 0 && cb.successes == 0 && cb.halfOpenRequests == 0
 
 //@ func (cb *CircuitBreaker) allowHalfOpen
 //@   property C08
+//@   safety
+//@   requires cb != nil
 //@   helper
 //@   modifies cb.halfOpenRequests
 //@   atomic-once cb.halfOpenRequests
@@ -59,6 +67,8 @@ package unifier
 
 //@ func (cb *CircuitBreaker) Allow
 //@   property C08
+//@   safety
+//@   requires cb != nil
 //@   modifies cb.state, cb.failures, cb.successes, cb.halfOpenRequests
 //@   ensures !cb.config.Enabled ==> res == true && cb.state == old(cb.state) && cb.halfOpenRequests == old(cb.halfOpenRequests)
 //@   ensures cb.config.Enabled && old(cb.state) == 0 ==> res == true && cb.state == 0
@@ -68,6 +78,8 @@ package unifier
 
 //@ func (cb *CircuitBreaker) RecordSuccess
 //@   property C08
+//@   safety
+//@   requires cb != nil
 //@   modifies cb.state, cb.failures, cb.successes, cb.halfOpenRequests
 //@   ensures !cb.config.Enabled ==> cb.state == old(cb.state) && cb.failures == old(cb.failures)
 //@   ensures cb.config.Enabled && old(cb.state) == 0 ==> cb.state == 0 && cb.failures == 0
@@ -77,6 +89,8 @@ package unifier
 
 //@ func (cb *CircuitBreaker) RecordFailure
 //@   property C08
+//@   safety
+//@   requires cb != nil
 //@   modifies cb.state, cb.failures, cb.successes, cb.halfOpenRequests, cb.lastFailureTime
 //@   ensures !cb.config.Enabled ==> cb.state == old(cb.state) && cb.failures == old(cb.failures)
 //@   ensures cb.config.Enabled ==> cb.lastFailureTime == now && cb.failures == old(cb.failures) + 1
@@ -87,6 +101,8 @@ package unifier
 
 //@ func (cb *CircuitBreaker) Reset
 //@   property C08
+//@   safety
+//@   requires cb != nil
 //@   modifies cb.state, cb.failures, cb.successes, cb.halfOpenRequests
 //@   ensures cb.state == 0 && cb.failures == 0 && cb.successes == 0 && cb.halfOpenRequests == 0
 
